@@ -405,9 +405,9 @@ impl Ctx {
             return;
         }
         let t0 = std::time::Instant::now();
-        // scaled-down workers (slow profiles, calibration runs) take every k-th element of a sweep; the
-        // complete sweep is the business of the worker that runs at scale 1
-        let stride = if self.scale < 1.0 { (1.0 / self.scale.max(0.001)).ceil() as usize } else { 1 };
+        // strongly scaled-down workers (scale < 0.2: slow profiles, secondary configurations, calibration runs)
+        // take every k-th element of a sweep; the complete sweep is done by the primary workers
+        let stride = if self.scale < 0.2 { (1.0 / self.scale.max(0.001)).ceil() as usize } else { 1 };
         let cases: Vec<C> = if stride > 1 {
             let off = (self.seed as usize) % stride;
             cases.into_iter().enumerate().filter(|(i, _)| i % stride == off).map(|(_, c)| c).collect()
